@@ -100,6 +100,7 @@ where
     eq: TypedFunc<NoCtx, fn(List<T>, List<T>) -> bool>,
     ne: TypedFunc<NoCtx, fn(List<T>, List<T>) -> bool>,
     lit2: TypedFunc<NoCtx, fn(T, T) -> List<T>>,
+    lit_exit: TypedFunc<NoCtx, fn(T, T, bool) -> Option<List<T>>>,
     count: TypedFunc<NoCtx, fn(List<T>) -> u64>,
     copy: TypedFunc<NoCtx, fn(List<T>) -> List<T>>,
     pushpush: TypedFunc<NoCtx, fn(List<T>, T, T) -> u64>,
@@ -119,6 +120,9 @@ fn s_index(l: List[{ty}], v: {ty}) -> u64? {{ l.index(v) }}
 fn s_eq(a: List[{ty}], b: List[{ty}]) -> bool {{ a == b }}
 fn s_ne(a: List[{ty}], b: List[{ty}]) -> bool {{ a != b }}
 fn s_lit2(a: {ty}, b: {ty}) -> List[{ty}] {{ [a, b] }}
+fn s_lit_exit(a: {ty}, b: {ty}, leave: bool) -> List[{ty}]? {{
+    Option.Some([a, {{ if leave {{ return Option.None; }}; b }}])
+}}
 fn s_count(l: List[{ty}]) -> u64 {{
     let n = 0u64;
     for x in l {{
@@ -168,6 +172,7 @@ where
             eq: g!("s_eq"),
             ne: g!("s_ne"),
             lit2: g!("s_lit2"),
+            lit_exit: g!("s_lit_exit"),
             count: g!("s_count"),
             copy: g!("s_copy"),
             pushpush: g!("s_pushpush"),
@@ -384,7 +389,16 @@ where
             14 => {
                 // from Vec / array / iterator, or a script list literal
                 let (k1, k2) = (op[2] as u64 % 7, op[3] as u64 % 7);
-                let l = if via {
+                let l = if via && op[1] % 4 >= 2 {
+                    // a literal whose second element may leave the function: nothing may stay behind
+                    if sc.lit_exit.call(T::from_key(k1), T::from_key(k2), true).is_some() {
+                        bail!("literal-exit", "a list literal whose element expression returns early produced a list");
+                    }
+                    match sc.lit_exit.call(T::from_key(k1), T::from_key(k2), false) {
+                        Some(l) => l,
+                        None => bail!("literal-exit", "a list literal without early exit produced no list"),
+                    }
+                } else if via {
                     sc.lit2.call(T::from_key(k1), T::from_key(k2))
                 } else if op[1] % 2 == 0 {
                     List::from(vec![T::from_key(k1), T::from_key(k2)])
